@@ -1416,3 +1416,6 @@ for _pid in ('C01', 'C03', 'C13'):
            more=[('crates/erltf/src/decoder.rs', "fn parse_new_fun_ext<'a>(input: &'a [u8], cache: &AtomCache) -> NomResult<'a, OwnedTerm> {", _NESTED_HELPER)])
     canary('%s-fun-nested-helper-crossed' % _pid.lower(), _pid, 'crates/erltf/src/decoder.rs', _NESTED_OLD, _NESTED_NEW.replace("(a, b);", "(b, a);"), 'ORDER:',
            more=[('crates/erltf/src/decoder.rs', "fn parse_new_fun_ext<'a>(input: &'a [u8], cache: &AtomCache) -> NomResult<'a, OwnedTerm> {", _NESTED_HELPER)])
+canary('c04-cookie-trimmed', 'C04', 'crates/edp_client/src/state_machine.rs', "        Self {\n            state: ConnectionState::Disconnected,", "        let cookie = cookie.trim_end().to_owned();\n        Self {\n            state: ConnectionState::Disconnected,", 'cookie-rewritten')
+canary('c09-buffer-store-no-refresh', 'C09', 'crates/edp_client/src/fragmentation.rs', "    fn add_fragment(&mut self, fragment_id: u64, data: Vec<u8>) {\n        self.last_update = Instant::now();\n", "    fn add_fragment(&mut self, fragment_id: u64, data: Vec<u8>) {\n", 'store-without-refresh')
+canary('c09-slots-reset-counter-kept', 'C09', 'crates/edp_client/src/fragmentation.rs', "                self.fragments.resize(count.get() as usize, None);", "                self.fragments = vec![None; count.get() as usize];", 'slots-reset-counter-kept')
